@@ -42,6 +42,7 @@ func (c *fakeClock) Drift(time.Duration) time.Duration { return 0 }
 func (c *fakeClock) Sleep(time.Duration)               {}
 func (c *fakeClock) Step(offset time.Duration) {
 	c.evs = append(c.evs, lib.L("1", lib.I(int64(offset))))
+	c.epoch++ // as the real driver: a step starts a new clock epoch, visible to the caller at once
 }
 func (c *fakeClock) Adjust(offset, duration time.Duration, frequency float64) {
 	c.evs = append(c.evs, lib.L("2", lib.I(int64(offset)), lib.I(int64(duration)), lib.U(fbits(frequency))))
